@@ -588,7 +588,7 @@ impl Prop for C17 {
     }
     fn runs(&self, tier: Tier) -> u64 {
         match tier {
-            Tier::Quick => 3000,
+            Tier::Quick => 6000,
             Tier::Thorough => 12_000,
         }
     }
